@@ -9,7 +9,21 @@ for f in kf:
     if f.get("status") == "fixed":
         by_commit.setdefault(f["commit"], []).append(f)
 log = subprocess.run("git -C /repo log --reverse --format='%h %s' 585bfc1..HEAD", shell=True, capture_output=True, text=True).stdout.strip().split("\n")
-out = ["<!-- AUTOGEN-BEGIN (tools/gen_design_tables.py) -->", "", "### D.1 Genuine defects repaired in /repo (one `fix:` commit each)", "",
+sys.path.insert(0, os.path.join(V, "tools"))
+import props as _props
+out = ["<!-- AUTOGEN-BEGIN (tools/gen_design_tables.py) -->", "", "### D.0 Checks as registered (tools/props.py) and what the last committed evidence run covered", "",
+       "| id | level | runs | quick bound | thorough bound | last evidence: tier, evaluations, states, wall |", "|---|---|---|---|---|---|"]
+for pid in sorted(_props.PROPS):
+    P = _props.PROPS[pid]
+    ev = {}
+    try:
+        ev = json.load(open(os.path.join(V, "evidence", pid + ".json")))
+    except Exception:
+        pass
+    cov = ev.get("coverage", {})
+    out.append("| %s | %s | %s | %s | %s | %s, %s, %s, %s s |" % (pid, P["level"], ", ".join(r["name"] for r in P["runs"]), P["bounds"].get("quick", "").replace("|", "/"), P["bounds"].get("thorough", "").replace("|", "/"),
+                                                            ev.get("tier", "-"), cov.get("evaluations", "-"), cov.get("states", "-"), ev.get("wall_s", "-")))
+out += ["", "### D.1 Genuine defects repaired in /repo (one `fix:` commit each)", "",
        "| # | commit | property (first reporting check) | defect (commit subject) |", "|---|---|---|---|"]
 n = 0
 for l in log:
